@@ -78,3 +78,143 @@ Theorem C18_item_body :
       end.
 Proof. exact param_free_item_body. Qed.
 Print Assumptions C18_item_body.
+
+(** ** the byte-level sentence: "its encoding equals the variant's payload"
+    (codec: Model/Codec.v, by recursion on the shape over abstract primitive codecs [P];
+    see Properties/C01.v.  No hypothesis on [P] is needed here.) *)
+From V Require Import Model.Codec Model.CodecInstance Model.CodecExample
+  Proofs.CodecProofs Proofs.CodecInstanceProofs Proofs.CodecExamples.
+
+(** on shapes: the enum codec at the index of a variant = the index byte followed by the
+    struct codec of that variant's field list *)
+Theorem C18_enum_payload :
+  forall (pv bv ov : Type) (P : prims pv bv ov)
+         (vs : list (string * N * list fshape)) nm i fs,
+    In (nm, i, fs) vs -> NoDup (map (fun v => snd (fst v)) vs) ->
+    (forall vals,
+        encode P (SEnum vs) (VEnum i vals) =
+        match encode P (SStruct fs) (VStruct vals) with
+        | Some e => Some (i :: e)
+        | None => None
+        end) /\
+    (forall b,
+        decode P (SEnum vs) (i :: b) =
+        match decode P (SStruct fs) b with
+        | Some (VStruct vals, rest) => Some (VEnum i vals, rest)
+        | _ => None
+        end).
+Proof. exact (@enum_payload). Qed.
+Print Assumptions C18_enum_payload.
+
+(** for an enum entry [t] without non-skipped parameters whose variant indices are pairwise
+    distinct, its item [ir], one of its variants [v], and the standalone struct built
+    through the public API from [v]'s field list (any name / docs): the standalone struct,
+    read against the generated items, is the [SStruct] of the registry field list, and
+    - encoding the enum value [VEnum (v_index v) vals] with the item = the index byte followed
+      by the encoding of [VStruct vals] with the standalone struct (both fail together);
+    - decoding [v_index v :: b] with the item = decoding [b] with the standalone struct
+      (same field values, same remainder; both fail together).
+    I.e. encoding of the enum value minus the index byte = encoding of the standalone struct *)
+Theorem C18_payload :
+  forall (pv bv ov : Type) (P : prims pv bv ov) r s teq m,
+    skeleton_consistent r s -> root_fresh s -> generate r s teq = Ok m ->
+    forall t flat ir vs v k u name docs n,
+      params_from_scale_info (t_params t) = [] ->
+      create_type_ir r s t flat = Ok (Some ir) ->
+      t_def t = TDVariant vs -> In v vs -> NoDup (map v_index vs) ->
+      create_composite_ir_kind r s (v_fields v) [] [] = Ok (k, u) ->
+      let enum_sh := item_shape m s n ir [] in
+      let struct_sh := item_shape m s n (upcast_composite s (mk_ci name k docs)) [] in
+      struct_sh = SStruct (map (field_shape_reg r s n) (v_fields v)) /\
+      (forall vals,
+          encode P enum_sh (VEnum (v_index v) vals) =
+          match encode P struct_sh (VStruct vals) with
+          | Some e => Some (v_index v :: e)
+          | None => None
+          end) /\
+      (forall b,
+          decode P enum_sh (v_index v :: b) =
+          match decode P struct_sh b with
+          | Some (VStruct vals, rest) => Some (VEnum (v_index v) vals, rest)
+          | _ => None
+          end).
+Proof. exact (@standalone_payload). Qed.
+Print Assumptions C18_payload.
+
+(** the same against the enum type AS NAMED by the generator ([resolve_type_path id], read in
+    the generated module one level deeper than the fields): for ANY item-eligible (not
+    substituted, namespaced, not Cow) enum entry - generic or not - the generated enum encodes
+    the variant as the index byte followed by what the standalone struct (built from the
+    variant's field list with no parent parameters) encodes, and decodes accordingly *)
+Theorem C18_payload_named :
+  forall (pv bv ov : Type) (P : prims pv bv ov) r s teq m,
+    skeleton_consistent r s -> root_fresh s -> generate r s teq = Ok m ->
+    forall id X t vs v k u name docs n,
+      resolve r id = Some X -> item_eligible s X = true ->
+      path_ident (t_path X) <> Some "Cow"%string ->
+      resolve_type_path r s id = Ok t ->
+      t_def X = TDVariant vs -> In v vs -> NoDup (map v_index vs) ->
+      create_composite_ir_kind r s (v_fields v) [] [] = Ok (k, u) ->
+      let enum_sh := shape_rust m s (S n) t in
+      let struct_sh := item_shape m s n (upcast_composite s (mk_ci name k docs)) [] in
+      (forall vals,
+          encode P enum_sh (VEnum (v_index v) vals) =
+          match encode P struct_sh (VStruct vals) with
+          | Some e => Some (v_index v :: e)
+          | None => None
+          end) /\
+      (forall b,
+          decode P enum_sh (v_index v :: b) =
+          match decode P struct_sh b with
+          | Some (VStruct vals, rest) => Some (VEnum (v_index v) vals, rest)
+          | _ => None
+          end).
+Proof. exact (@standalone_payload_named). Qed.
+Print Assumptions C18_payload_named.
+
+(** struct entries: the standalone struct built from the field list of a parameter-free
+    struct has the decoder and the encoder of the struct's own item *)
+Theorem C18_struct_codec :
+  forall (pv bv ov : Type) (P : prims pv bv ov) r s teq m,
+    skeleton_consistent r s -> root_fresh s -> generate r s teq = Ok m ->
+    forall t flat ir fs k u name docs n,
+      params_from_scale_info (t_params t) = [] ->
+      create_type_ir r s t flat = Ok (Some ir) ->
+      t_def t = TDComposite fs ->
+      create_composite_ir_kind r s fs [] [] = Ok (k, u) ->
+      let struct_sh := item_shape m s n (upcast_composite s (mk_ci name k docs)) [] in
+      decode P (item_shape m s n ir []) = decode P struct_sh /\
+      encode P (item_shape m s n ir []) = encode P struct_sh.
+Proof. exact (@standalone_struct_codec). Qed.
+Print Assumptions C18_struct_codec.
+
+(** real bytes (finite computation, concrete primitive codecs): the standalone struct built
+    from the fields of variant C (index 5) of the example enum [types::a::E] encodes
+    { x: 70000 (compact), y: true } to C2 45 04 00 01, the enum item encodes the variant to
+    05 C2 45 04 00 01, and both decode back *)
+Theorem C18_payload_example :
+  item_shape cx_items cx_settings 3 cx_standalone [] =
+  SStruct [(Some "x", false, SCompact (SPrim PU32)); (Some "y", false, SPrim PBool)]%string /\
+  cx_payload = [194; 69; 4; 0; 1]%N /\
+  encode iprims (item_shape cx_items cx_settings 3 cx_standalone [])
+         (VStruct [VPrim 70000; VPrim 1]%N) = Some cx_payload /\
+  encode iprims (shape_rust cx_items cx_settings 4 (cx_path 5))
+         (VEnum 5 [VPrim 70000; VPrim 1]%N) = Some (5%N :: cx_payload) /\
+  decode iprims (item_shape cx_items cx_settings 3 cx_standalone []) cx_payload =
+  Some (VStruct [VPrim 70000; VPrim 1]%N, []) /\
+  decode iprims (shape_rust cx_items cx_settings 4 (cx_path 5)) (5%N :: cx_payload) =
+  Some (VEnum 5 [VPrim 70000; VPrim 1]%N, []).
+Proof. exact (conj cx_standalone_shape (conj eq_refl cx_payload_bytes)). Qed.
+Print Assumptions C18_payload_example.
+
+(** ... and for EVERY list of field values, by [C18_payload_named] (whose hypotheses are
+    therefore satisfiable, with the concrete primitive codecs) *)
+Theorem C18_payload_example_all :
+  forall vals,
+    encode iprims (shape_rust cx_items cx_settings 4 (cx_path 5)) (VEnum 5 vals) =
+    match encode iprims (item_shape cx_items cx_settings 3 cx_standalone []) (VStruct vals) with
+    | Some e => Some (5%N :: e)
+    | None => None
+    end.
+Proof. exact cx_payload_by_theorem. Qed.
+Print Assumptions C18_payload_example_all.
